@@ -228,8 +228,16 @@ pub use state::ParseState;
 #[doc(hidden)]
 pub use trace::{IndentedTracer, NoopTracer, ParseTracer};
 
+#[cfg(not(peginator_verif))]
 #[doc(hidden)]
 pub type CacheEntries<'a, T> = HashMap<usize, ParseResult<'a, T>, BuildNoHashHasher<usize>>;
+
+#[cfg(peginator_verif)]
+#[doc(hidden)]
+pub mod verif_hooks;
+#[cfg(peginator_verif)]
+#[doc(hidden)]
+pub type CacheEntries<'a, T> = verif_hooks::LinearCache<ParseResult<'a, T>>;
 
 /// Helper trait to get the parse position of the parsed rule
 ///
